@@ -1,6 +1,7 @@
 package gen
 
 import (
+	"strconv"
 	"fmt"
 	"strings"
 
@@ -20,10 +21,24 @@ var hostileTails = []string{"/*", "/* unterminated", "/**", "/* a * b", "//", "/
 type Scale struct {
 	Prefix, Open, Mid, Close, Suffix string
 	Count                            int
+	Numbered                         bool // every '#' in the i-th copy of Open / Close is replaced by i: n distinct identifiers
 }
 
 func (s *Scale) Build(n int) string {
-	return s.Prefix + strings.Repeat(s.Open, n) + s.Mid + strings.Repeat(s.Close, n) + s.Suffix
+	if !s.Numbered {
+		return s.Prefix + strings.Repeat(s.Open, n) + s.Mid + strings.Repeat(s.Close, n) + s.Suffix
+	}
+	var sb strings.Builder
+	sb.WriteString(s.Prefix)
+	for i := 0; i < n; i++ {
+		sb.WriteString(strings.ReplaceAll(s.Open, "#", strconv.Itoa(i)))
+	}
+	sb.WriteString(s.Mid)
+	for i := n - 1; i >= 0; i-- {
+		sb.WriteString(strings.ReplaceAll(s.Close, "#", strconv.Itoa(i)))
+	}
+	sb.WriteString(s.Suffix)
+	return sb.String()
 }
 
 // Text generates arbitrary byte strings (G-text in DESIGN.md). base supplies a grammatical
@@ -119,6 +134,30 @@ func (d D) textScaled(base func() string) (string, string, *Scale) {
 			fmt.Fprintf(&sb, "type A%d = 1\n", k)
 			return sb.String(), "definition-chain", nil
 		case 0:
+			if d.Chance(60, "distinct") {
+				// n distinct identifiers in one list-like construct
+				m := 1 + n%3000
+				switch d.Pick(9, "distinctkind") {
+				case 0:
+					return "", "many-distinct-waits", &Scale{Prefix: "prc[a] : 1 = ", Open: "wait x#; ", Suffix: "close self", Count: m, Numbered: true}
+				case 1:
+					return "", "many-distinct-waits-two-providers", &Scale{Prefix: "prc[a, b] : 1 = ", Open: "wait x#; ", Suffix: "close self", Count: m, Numbered: true}
+				case 2:
+					return "", "many-processes", &Scale{Open: "prc[x#] : 1 = close self\n", Count: m, Numbered: true}
+				case 3:
+					return "", "many-type-definitions", &Scale{Open: "type A# = 1\n", Count: m, Numbered: true}
+				case 4:
+					return "", "many-functions", &Scale{Open: "let f#() : 1 = close self\n", Count: m, Numbered: true}
+				case 5:
+					return "", "many-parameters", &Scale{Prefix: "let f(x : 1", Open: ", x# : 1", Suffix: ") : 1 = close self", Count: m, Numbered: true}
+				case 6:
+					return "", "many-distinct-branches", &Scale{Prefix: "type A = +{l : 1", Open: ", l# : 1", Suffix: "}", Count: m, Numbered: true}
+				case 7:
+					return "", "many-distinct-case-branches", &Scale{Prefix: "prc[a] : 1 = case x (l<y> => close self", Open: " | l#<y#> => close self", Suffix: ")", Count: m, Numbered: true}
+				default:
+					return "", "many-cuts-of-distinct-names", &Scale{Prefix: "let u() : 1 = close self\nprc[a] : 1 = ", Open: "x# <- new u(); ", Mid: "", Close: "wait x#; ", Suffix: "close self", Count: m, Numbered: true}
+				}
+			}
 			return "", "long-identifier", &Scale{Prefix: "type ", Open: "a", Suffix: " = 1", Count: n}
 		case 1:
 			return "", "many-arguments", &Scale{Prefix: "prc[a] : 1 = f(x", Open: ", x", Suffix: ")", Count: n % 6000}
